@@ -219,6 +219,11 @@ class Gen:
                 o['nfd'] = n + 1            # announces more than it brings (unless some are held)
             elif r < 0.26:
                 o['fds'] = 17               # over the per-message maximum
+            if rng.random() < 0.08 and o.get('dst') is not None:
+                # a header far larger than one write to the recipient's socket takes (the descriptors go with the first byte only)
+                o['path'] = '/' + 'p' * rng.choice([150000, 300000])
+                o.pop('join', None)
+                return o
             if rng.random() < 0.2:
                 o['join'] = True            # written together with the next message
             elif rng.random() < 0.3:
